@@ -662,6 +662,30 @@ func (ed *errDisc) checkSite(c *ssa.Call) errSiteResult {
 			return errSiteResult{ok: false, kind: "overwritten", pos: c.Pos(),
 				detail: fmt.Sprintf("the error of %s can be overwritten by the next execution of the same call (next loop iteration) before it is tested: only the last iteration's write is checked", site)}
 		}
+		// Rule D: ... and before the function can report success: a return that does not carry the error, reached
+		// from the call without the error having been looked at (`ok, err := f(); if !ok { return nil }; if err != nil`)
+		if fnHasErr {
+			q := &PathQuery{Fn: fn, Barrier: consumed}
+			q.Target = func(ins ssa.Instruction, via *ssa.BasicBlock) bool {
+				r, ok := ins.(*ssa.Return)
+				if !ok {
+					return false
+				}
+				fei := errResultIndex(fn.Signature)
+				if fei >= len(r.Results) {
+					return false
+				}
+				op := resolvePhi(effectiveResult(r, fei), r.Block(), via)
+				if al.vals[op] || ed.derivesFromAlias(op, al) {
+					return false
+				}
+				return ed.p.classifyReturn(r, via) != retError
+			}
+			if hits := q.From(c); len(hits) > 0 {
+				return errSiteResult{ok: false, kind: "swallowed", pos: c.Pos(),
+					detail: fmt.Sprintf("after %s the function can report success at %s without having looked at its error (an earlier test of another result returns first): a failed write is reported as success", site, ed.p.Pos(hits[0].Ins.Pos()))}
+			}
+		}
 	}
 	how := "tested"
 	if escapes && len(checks) == 0 {
